@@ -484,6 +484,7 @@ def correspond(ctx):
             except Exception as e:  # noqa
                 ctx.fail(f"unreadable:{name}:{lex}", f"{st.__name__}.from_xml({lex!r}) raised {type(e).__name__} although the form is valid for {xt[1]} ({uses[0]})",
                          {"type": name, "lexical": lex})
+    attr_history_independence(ctx)
     rejected_is_noop(ctx)
     proxy_rejected_noop(ctx)
     out = ctx.driver.run(lines)
@@ -555,6 +556,48 @@ def rejected_is_noop(ctx):
                     ctx.fail(f"rejected-assignment-wrote:{kind}", f"{cls.__name__}.{prop} = {bv!r} raised, but the attribute {attr} changed from {good!r} to {el.get(attr)!r}",
                              {"class": cls.__name__, "prop": prop, "value": repr(bv)})
                     break
+
+
+def attr_history_independence(ctx):
+    """what an attribute's setter accepts is a function of the value: for every attribute declaration, an equal value of
+    ANOTHER type (1.0 for 1, True for 1, 228600.0 for 228600) gets the same verdict on a fresh element before and after
+    the valid value was assigned to another element of the same class (a cache keyed by the Python value conflates them)"""
+    from pptx.oxml.xmlchemy import OxmlElement
+
+    reg = reflect.registered_classes()
+    seen = set()
+    for tag, cls in sorted(reg.items()):
+        nsp = None
+        for prop, attr, st, kind, default in reflect.attr_decls(cls):
+            if (cls, prop) in seen:
+                continue
+            seen.add((cls, prop))
+            if nsp is None:
+                from harness.props.c10 import clark_to_nsp
+                nsp = clark_to_nsp(tag)
+
+            def verdict(v):
+                el = OxmlElement(nsp)
+                try:
+                    setattr(el, prop, v)
+                    return ("ok", el.get(attr))
+                except (TypeError, ValueError) as e:
+                    return ("rejected", type(e).__name__)
+                except Exception as e:  # noqa
+                    return ("raised", type(e).__name__)
+            for cand in (1, 2, 100, 228600, 0):
+                twins = [float(cand)] + ([True] if cand == 1 else []) + ([False] if cand == 0 else [])
+                before = [verdict(t) for t in twins]      # nothing equal has been assigned yet through this declaration
+                if verdict(cand)[0] != "ok":
+                    continue
+                verdict(cand)
+                after = [verdict(t) for t in twins]
+                ctx.case(key=("attr-history", cls.__name__, prop, cand))
+                ctx.count("attribute-history-independence-checked")
+                if before != after:
+                    ctx.fail(f"history-dependent-attribute:{kind}", f"{cls.__name__}.{prop}: {twins} got {before} on a fresh element, {after} after {cand!r} had been "
+                             f"assigned to another element", {"class": cls.__name__, "prop": prop, "value": repr(cand)})
+                break
 
 
 def proxy_rejected_noop(ctx):
